@@ -583,10 +583,10 @@ def heavy_positions(mat):
     return [g for g in mat.items if len(g["legal"]) >= 30]
 
 
-def plan_c09(wd, rng, T, mat):
+def plan_c09(wd, rng, T, mat, lite=False):
     inproc, binary, sweeps = [], [], []
     sparse = [g for g in mat.items if 3 <= len(g["legal"]) <= 26]
-    for g in rng.sample(sparse, min(len(sparse), 8 if T else 2)):
+    for g in rng.sample(sparse, min(len(sparse), (8 if T else 2) if not lite else (3 if T else 1))):
         sweeps.append({"id": len(sweeps) + 1, "family": "engine", "kind": "sweep", "fen": g["fen"], "moves": [],
                        "steps": [{"t": "abort_sweep", "depth": 3, "max": 4000 if T else 500, "seed": rng.randrange(1 << 30)}]})
     if T:
@@ -631,7 +631,14 @@ def plan_c16(wd, rng, T, mat):
         # a search with a PV, then a move-less root on the same process: the ponder move must not be left over
         mk(binary, "binary", [{"t": "position", "fen": START, "moves": []}, {"t": "go", "depth": 3},
                                {"t": "position", "fen": g["fen"], "moves": []}, {"t": "go", "depth": 2}])
-    return inproc, binary, sweeps
+    # interrupted searches: the answer must still be the head of the last reported pv, wherever the interruption falls
+    # (every node of the swept searches through hook H5a; real stop / move time expiry on positions with > 100,000 nodes per iteration)
+    ip2, bin2, sw2 = plan_c09(wd, rng, T, mat, lite=True)
+    for c in ip2:
+        mk(inproc, "inproc", c["steps"])
+    for c in bin2:
+        mk(binary, "binary", c["steps"])
+    return inproc, binary, sw2
 
 
 def check_c07(tier, replay=None):
